@@ -40,7 +40,7 @@ class C14(core.Prop):
 
     def gen_case(self, rng, i):
         return {'examples': rx.gen_examples(rng), 'opts': rx.gen_opts(rng), 'size': rx.gen_size(rng),
-                'seed': rng.choice([None, 1, 7, 2024]), 'perm_seed': rng.randrange(10 ** 6)}
+                'seed': rng.choice([None, 0, 1, 7, 2024]), 'perm_seed': rng.randrange(10 ** 6)}
 
     def translate(self):
         return translate.regenerate(['Rexpy'])
